@@ -86,6 +86,8 @@ def run(ctx):
     ctx.rule("R3", "replace_by (node's own range) is never instantiated with a Fixer; matcher and fixer passed to make_edit come from the same rule object")
     ctx.rule("R4", "cli::print::Diff is constructed only in Diff::generate (single source of CLI edits)")
     ctx.rule("R5", "LSP text edits take their range from the Edit returned by make_edit, not from the diagnostic range")
+    ctx.rule("R6", "the text an accepted fix is spliced into is the document text the fix's range was computed against (not a node's text)")
+    r6(ctx)
 
     # ---------------- R1 ---------------------------------------------------------------------
     n_inst = 0
@@ -303,3 +305,8 @@ def diag_typed(f, o):
 
 def short_trait(t):
     return t.rsplit("::", 1)[-1]
+
+
+def r6(ctx):
+    from .c18 import frame_agreement
+    frame_agreement(ctx, "R6")
